@@ -52,6 +52,9 @@ SEQ_KINDS = ["vec_int", "deque_int", "list_int", "fwdlist_int", "set_int", "mult
 SORTABLE = {"vec_int", "vec_str", "deque_int", "list_int", "fwdlist_int"}
 ITER = SORTABLE | {"set_int", "multiset_int"}
 ARR_N = [1, 2, 3, 4, 5, 6, 8]
+ARR_INT = ("carray_int", "stdarray_int")
+ARR_STR = ("carray_str", "stdarray_str")
+ARR_KINDS = ARR_INT + ARR_STR
 BIT_N = [1, 2, 3, 5, 8, 64, 65]
 SEPS = [",", ";", ":", "/"]
 
@@ -71,9 +74,19 @@ def build_harness(work, prop):
 def diff_is_failure(prop, p):
     """The property fixes the final content for element sequences that convert and pass the checks, and that
     duplicates / overflowing elements are refused.  A difference between two *refusals* (exception class, what was
-    stored before the refusal) is outside the statement: broken tie only."""
+    stored before the refusal) is outside the statement: broken tie only -- except for the capacity refusal of a
+    fixed-size array without sort and of a bitset, where C06_array_overflow / C06_bitset_outside fix what the
+    destination holds afterwards (the first N kept values / the positions given before)."""
     a, b = (p.impl or ""), (p.model or "")
     if a.startswith("throw ") and b.startswith("throw "):
+        wa, wb = a.split(" "), b.split(" ")
+        if len(wa) > 2 and len(wb) > 2 and wa[1] == wb[1] == "runtime_error" and wa[2:] != wb[2:]:
+            conts = [ln for ln in p.case.lines if ln.startswith("cont ")]
+            if conts:
+                w = conts[-1].split(" ")
+                kind = kvs(w, "kind").split(":")[0]
+                if kvs(w, "unique") != "error" and (kind == "bitset" or (kind in ARR_KINDS and kvs(w, "sort") != "1")):
+                    return True
         return False
     return True
 
@@ -136,7 +149,7 @@ class Conf:
         k = self.kind
         if k in SEQ_KINDS or k == "vec_str":
             return not (self.sort and k not in SORTABLE) and not (self.unique != "none" and k not in ITER)
-        if k in ("carray_int", "stdarray_int"):
+        if k in ARR_KINDS:
             return not self.clear
         if k == "bitset":
             return not self.sort and self.unique == "none"
@@ -219,7 +232,7 @@ STR_POOL = ["a", "b", "ab", "B", "abc", "Zz", "a1", "0", "10", "9", "abcd", "A"]
 
 def gen_elems(rng, conf, length):
     k = conf.kind
-    if k == "vec_str":
+    if k == "vec_str" or k in ARR_STR:
         return [rng.choice(STR_POOL) for _ in range(length)]
     if k == "bitset":
         n = conf.n
@@ -241,7 +254,7 @@ def gen_elems(rng, conf, length):
 
 def bad_element(rng, conf):
     k = conf.kind
-    if k == "vec_str":
+    if k == "vec_str" or k in ARR_STR:
         return None
     if k == "bitset":
         return rng.choice([str(conf.n), str(conf.n + 1), "-1", "x", "18446744073709551615", "18446744073709551616", "1x"])
@@ -256,10 +269,11 @@ def bad_element(rng, conf):
 
 def random_conf(rng, kind=None, force_valid=True):
     kind = kind or rng.choice(SEQ_KINDS + ["vec_int", "vec_str", "carray_int", "stdarray_int", "bitset", "map_int_str",
-                                            "tuple_int_str_int", "carray_int", "stdarray_int"])
+                                            "tuple_int_str_int", "carray_int", "stdarray_int", "carray_str",
+                                            "stdarray_str"])
     for _ in range(50):
         c = Conf(kind)
-        if kind in ("carray_int", "stdarray_int"):
+        if kind in ARR_KINDS:
             c.n = rng.choice(ARR_N)
         if kind == "bitset":
             c.n = rng.choice(BIT_N)
@@ -283,12 +297,14 @@ def random_conf(rng, kind=None, force_valid=True):
             c.init = ["%s:%s" % (rng.choice(INT_POOL[:6]), rng.choice(STR_POOL)) for _ in range(rng.choice([0, 1, 2]))]
         elif kind == "tuple_int_str_int":
             c.init = [] if rng.random() < 0.5 else ["7", "q", "9"]
-        elif kind in ("carray_int", "stdarray_int"):
+        elif kind in ARR_INT:
             c.init = [rng.choice(["0", "1", "2", "9"]) for _ in range(rng.choice([0, 0, c.n, max(0, c.n - 1)]))]
+        elif kind in ARR_STR:
+            c.init = [rng.choice(["a", "b", "Zz", "9"]) for _ in range(rng.choice([0, 0, c.n, max(0, c.n - 1)]))]
         else:
             c.init = [rng.choice(INT_POOL[:8]) for _ in range(rng.choice([0, 0, 1, 2, 4]))]
         # checks / formats
-        if rng.random() < 0.25 and kind not in ("map_int_str", "vec_str"):
+        if rng.random() < 0.25 and kind not in ("map_int_str", "vec_str") + ARR_STR:
             if kind == "tuple_int_str_int":
                 c.checks = [rng.choice(["maxlen:3", "minlen:1"])]
             elif kind == "bitset":
@@ -300,7 +316,7 @@ def random_conf(rng, kind=None, force_valid=True):
                     extra = rng.choice(["maxlen:3", "upper:43"])
                     if extra.split(":")[0] != c.checks[0].split(":")[0]:
                         c.checks.append(extra)
-        if kind == "vec_str":
+        if kind == "vec_str" or kind in ARR_STR:
             if rng.random() < 0.4:
                 c.fmt = rng.choice(["upper", "lower"])
             if rng.random() < 0.3:
@@ -312,9 +328,9 @@ def random_conf(rng, kind=None, force_valid=True):
         if rng.random() < 0.5:                # repair the usual suspects instead of rolling everything again
             if kind not in SORTABLE:
                 c.sort = 0
-            if kind not in ITER and kind not in ("carray_int", "stdarray_int", "map_int_str"):
+            if kind not in ITER and kind not in ARR_KINDS + ("map_int_str",):
                 c.unique = "none"
-            if kind in ("carray_int", "stdarray_int", "tuple_int_str_int"):
+            if kind in ARR_KINDS + ("tuple_int_str_int",):
                 c.clear = 0
             if kind == "tuple_int_str_int":
                 c.fmt = None
@@ -325,7 +341,7 @@ def random_conf(rng, kind=None, force_valid=True):
 
 def seq_length(rng, conf):
     k = conf.kind
-    if k in ("carray_int", "stdarray_int"):
+    if k in ARR_KINDS:
         return rng.choice([0, 1, conf.n - 1, conf.n, conf.n, conf.n + 1, conf.n + 2])
     if k == "tuple_int_str_int":
         return rng.choice([3, 3, 3, 3, 2, 4, 1, 5])
@@ -386,7 +402,8 @@ def exhaustive_cases(maxlen, alphabet):
     """every container kind x every valid (clear, sort, unique) x every element sequence over the alphabet up to
     maxlen x every cut into uses (`-v a,b` per use), init content [2,1] resp. kind-specific"""
     cases = []
-    kinds = [(k, 0) for k in SEQ_KINDS] + [("vec_str", 0), ("carray_int", 2), ("stdarray_int", 3), ("bitset", 3)]
+    kinds = [(k, 0) for k in SEQ_KINDS] + [("vec_str", 0), ("carray_int", 2), ("stdarray_int", 3), ("carray_str", 2),
+                                             ("stdarray_str", 2), ("bitset", 3)]
     cid = 0
     for (kind, n), clear, sort, unique in itertools.product(kinds, (0, 1), (0, 1), ("none", "drop", "error")):
         conf = Conf(kind, n=n, clear=clear, sort=sort, unique=unique)
@@ -394,7 +411,7 @@ def exhaustive_cases(maxlen, alphabet):
             continue
         if kind == "bitset":
             conf.init = ["1"]
-        elif kind in ("carray_int", "stdarray_int"):
+        elif kind in ARR_KINDS:
             conf.init = ["1", "0"]
         else:
             conf.init = ["2", "1"] if kind not in ("set_int", "multiset_int", "prioq_int") else ["1", "2"]
